@@ -55,17 +55,18 @@ def replay(prop, spec, path):
     ex = r.get("example") or {}
     print(json.dumps(r, indent=1))
     lane = ex.get("lane", "native")
-    if lane not in ("native", "poison"):
+    if lane not in ("native", "poison", "release-checked"):
         print(f"(lane {lane}: re-run ./check {prop} --tier {r.get('tier','quick')} with VERIF_SEED={r.get('seed',1)} to reproduce)")
         return 0
     if prop == "C01":
         gen_constants.generate()
     try:
-        binpath = C.build_monitor(spec.get("bin", prop.lower()))
+        binpath = C.build_monitor(spec.get("bin", prop.lower()), release_checked=(lane == "release-checked"))
     except C.Inconclusive as e:
         print(e)
         return 2
-    cmd = [binpath, "--seed", str(r["seed"]), "--tier", r["tier"], "--only", f"{ex.get('sub','')}:{ex.get('case',0)}"]
+    mseed = r["seed"] + (1000003 if lane == "release-checked" else 0)  # the second lane runs at a shifted seed
+    cmd = [binpath, "--seed", str(mseed), "--tier", r["tier"], "--only", f"{ex.get('sub','')}:{ex.get('case',0)}"]
     rc, out, err, to = C.run(cmd, env=C.base_env(), timeout=600)
     sys.stdout.write(err)
     try:
@@ -173,15 +174,18 @@ PROPS = {
     "C02": dict(
         run=native_both_profiles, level=EXPL, technique="exhaustive shape enumeration with random payloads; bit-exact doc-derived oracle per combinator; cross-checks Sum2 vs SumStream<2>, Product2 vs ProductStream<2>, De Morgan both directions, purity over three reads; panic capture",
         rule="for each of the 16 combinators every shape is enumerated completely: outcome code of every input (Err(1), Err(2), None, Some; booleans Some(false)/Some(true)) x every weak ordering < = > of the present inputs' timestamps, arities 1..=5 of SumStream/ProductStream/Latest, payloads f32 and Quantity; Expirer adds clock state x age-vs-limit < = > x 4 limit strata, NoneToValue clock state x clock-vs-input order; each shape gets random finite values per (seed, sub, case) and get() is called three times; distinct = (combinator, payload, outcome vector, timestamp-order class)",
-        assumptions=["errors dominate everywhere except Latest, earliest input first; the time getter counts as the last input",
+        assumptions=["update() on a stateless combinator is a no-op returning Ok(()): reads after [set A; update(); set B] equal a fresh instance given B (bit-exact); input polls per update() are recorded, not judged",
+                     "aliased inputs: the same source object on two or all input slots through Rc<RefCell>, raw pointer, Arc<Mutex>, Arc<RwLock>, *Mutex, *RwLock gives the documented outcome for equal operands; each case runs on a helper thread and a single uncontended read that has not returned after 20 s is a violation (logical non-return, e.g. self-deadlock), as is a panic",
+                     "errors dominate everywhere except Latest, earliest input first; the time getter counts as the last input",
                      "both readings accepted where the docs are silent: Expirer(None input, clock Err) may be None or that error; NoneToValue(Some input, clock Err) may be the input or that error; Latest ties accept any maximal-stamp input",
                      "ExponentStream value compared bit-exact against a second ExponentStream on constant getters (same powf) plus a loose f64 cross-check",
                      "Expirer times kept below 2^61 (the crate subtracts them); i64 extremes only where stamps are merely compared"],
     ),
     "C03": dict(
-        thorough_scale=10, run=native_both_profiles, level=EXPL, technique="exhaustive enumeration over anchor timestamp pairs x operator form x payload plus stratified random; integer max/argmax oracle; bit-identity for selections; before/after terminal snapshots for devices; panic capture",
+        thorough_scale=6, run=native_both_profiles, level=EXPL, technique="exhaustive enumeration over anchor timestamp pairs x operator form x payload plus stratified random; integer max/argmax oracle; bit-identity for selections; before/after terminal snapshots for devices; panic capture",
         rule="every Datum operator impl in src/datum.rs over all 15x15 ordered pairs of anchor stamps {i64::MIN, MIN+1, -2^62-1, -2^62, -1e9-7, -2,-1,0,1,2, 1e9+7, 2^62, 2^62+1, MAX-1, MAX} and random stratified pairs, 5 payload types; latest() and the three replace helpers on the same pairs x slot {empty,full} x candidate {Some,None}; Latest arity 1-5 and SumStream/ProductStream arity 1-4 over every assignment of {absent, rank 1..n}; all two-input streams x 4 presence masks; terminals 16 own/partner presences x connected/unconnected x 11x11 moderate stamp pairs; one update() of each of 12 devices with distinct stamps on every slot; distinct = (site/operator form, payload, stratum of each stamp, order class)",
-        assumptions=["the crate only compares timestamps on these paths; terminal/device stamps stay within |t| <= 2^40+3",
+        assumptions=["topology sub-checks keep a set-of-pairs model (connect(x,y) first severs the previous links of x and y); contributor / candidate sets of every terminal read come from that model; a terminal linked to nothing returns exactly its own last request",
+                     "the crate only compares timestamps on these paths; terminal/device stamps stay within |t| <= 2^40+3",
                      "ties accept either candidate; candidates have pairwise distinct payload bits (except bool)",
                      "command propagation through devices is judged only on own command slots that changed during update(); untouched terminals are not constrained",
                      "Getter<TerminalData> (combined read) is stamped with the state's time by design (C09 statement), so it is only required to carry one of the part stamps here"],
@@ -237,7 +241,8 @@ PROPS = {
     "C20": dict(
         thorough_scale=4, run=native_both_profiles, level=EXPL, technique="recording and fault-injecting inner objects at the trait boundary; per-round differential against an oracle computed from the pre-update terminal read; bit-exact twin stand-alone CommandPID with identical wiring; exhaustive single-round grids",
         rule="two exhaustive single-round grids (actuator 384 cells: own/partner state and command present or absent, linked or not, stamp order, inner accept/reject/update-error; encoder 64 cells: getter present/absent/error-1/error-2, inner update ok/error, own slots empty or filled, partner) plus three random families (actuator, encoder, pid) of 1..=32-round histories in which each round delivers a new state and/or command (all three kinds) to the external and/or own terminal or re-links / disconnects them, with scripted reject / update-error / getter present-absent-erroring; distinct = per-round sequence of (what the terminal saw, inner outcome) (+ twin output class for pid)",
-        assumptions=["'data the terminal sees' is read from the real terminal with Getter<TerminalData> immediately before update() (merge semantics belong to C03/C09)",
+        assumptions=["observing strata (act/enc/pid-observing): the inner object reads its own and/or the connected terminal (TerminalData, State, Command, both last-request slots) from inside impl_set / update / get; every such read is permitted by the unchanged crate, must not panic, and must show what the monitor read immediately before the wrapper's update() (for the encoder only reads up to the first inner get() are compared)",
+                     "'data the terminal sees' is read from the real terminal with Getter<TerminalData> immediately before update() (merge semantics belong to C03/C09)",
                      "after a failing inner.set the actuator wrapper may either call or skip inner.update() (statement silent); exactly one inner.update() per wrapper update() otherwise",
                      "PID wrapper compared bit-exactly (canonical bits) with a stand-alone CommandPID wired like the wrapper (shared Time clock, two ConstantGetters, PID following the command getter); the PID law itself is C11's job",
                      "stamps |t| <= 2^40, non-decreasing with repeats; repeated stamps give inf/NaN on both sides and are compared canonically"],
